@@ -543,6 +543,14 @@ package s3db
 //@       has(rowOf(tree(c)[akeygo(key)].Value).ColumnValues, col) && rowOf(tree(c)[akeygo(key)].Value).ColumnValues[col].Value == old(rowOf(tree(c)[akeygo(key)].Value).ColumnValues[col].Value))
 //@   ensures dropped: imp(result == nil && hasWT(ctx) && old(has(tree(c), akeygo(key)) && visible(tree(c)[akeygo(key)])) && ns(wtOf(ctx)) < old(tree(c)[akeygo(key)].ModEpochNanos), tree(c)[akeygo(key)] == old(tree(c)[akeygo(key)]))
 //@   ensures others: forall a int :: imp(result == nil && a != akeygo(key), has(tree(c), a) == old(has(tree(c), a)) && tree(c)[a] == old(tree(c)[a]))
+// The property (C02: the result is the same whether the statements ran on one
+// writer or several; per-column last write wins) needs an accepted statement to
+// take effect per column whatever the entry's modification time. The kv
+// entry gate discards it wholesale when the entry was modified later
+// ("dropped" above): this clause fails on the current code (known finding).
+//@   ensures not-discarded: imp(result == nil && hasWT(ctx) && old(has(tree(c), akeygo(key)) && visible(tree(c)[akeygo(key)]) && !rowOf(tree(c)[akeygo(key)].Value).Deleted) && assigns(c, values, col) &&
+//@       old(has(rowOf(tree(c)[akeygo(key)].Value).ColumnValues, col)) && ns(wtOf(ctx)) > old(utime(rowOf(tree(c)[akeygo(key)].Value).ColumnValues[col], tm(tree(c)[akeygo(key)].ModEpochNanos))),
+//@       tagged(rowOf(tree(c)[akeygo(key)].Value).ColumnValues[col].Value, values[colIdx(c, col)]))
 //@   loop 1 modifies contents(new.ColumnValues)
 //@   loop 1 invariant new.ColumnValues != nil && fresh(new.ColumnValues) && !new.Deleted
 //@   loop 1 invariant forall i int :: imp(visited(i), has(values, i))
